@@ -150,7 +150,7 @@ theorem collectArgs_van (T : PTables) (mac : MacroDef) (p q : Nat) (key : List T
   rw [collectArgs]
   simp only [skippedLangs_cons_of_not _ _ hl, skipSpace_cons_of_not _ _ hl, List.append_nil,
     List.head?_cons, show ('A' == '*') = false by decide, show ('A' == 'O') = false by decide,
-    beq_self_eq_true, if_true, show txtIs (lbr p) "}" = false by rfl, Bool.false_eq_true, if_false]
+    beq_self_eq_true, if_true, show txtIsNV (lbr p) "}" = false by rfl, Bool.false_eq_true, if_false]
   refine (M.bind_ok _ _ _ _ _ ha).trans ?_
   rw [collectArgs]
   rfl
